@@ -83,4 +83,102 @@ theorem conservation_history_closed (a : String) (ops : List Op) (s s' : State)
   have := conservation_history a ops s s' h
   omega
 
+/-! ## C03 over mixed histories: packets and block ends never move a nonce -/
+
+theorem payFees_nonce (fees : List (String × Nat)) (s s' : State) (h : payFees s fees = some s') :
+    s'.nonce = s.nonce := (payFees_spec fees s s' h).2.2.2.2.2.2.2.1
+
+/-- Account nonces never decrease along any operation, and only a transaction that takes effect
+    moves one. -/
+theorem stepOp_nonce_mono (s : State) (op : Op) (x : String) :
+    getN s.nonce x ≤ getN (stepOp s op).nonce x := by
+  cases op with
+  | tx t => exact stepTx_nonce_mono s t x
+  | recv p =>
+    simp only [stepOp, recvPacket]
+    cases hp : recvPlan s p with
+    | none => exact Nat.le_refl _
+    | some fx =>
+      simp only
+      cases h : applyEffects s fx with
+      | none => exact Nat.le_refl _
+      | some s' => simp only; rw [applyEffects_nonce fx s s' h]; exact Nat.le_refl _
+  | refund p =>
+    simp only [stepOp, refundPacket]
+    cases hp : refundPlan s p with
+    | none => exact Nat.le_refl _
+    | some fx =>
+      simp only
+      cases h : applyEffects s fx with
+      | none => exact Nat.le_refl _
+      | some s' => simp only; rw [applyEffects_nonce fx s s' h]; exact Nat.le_refl _
+  | endBlock =>
+    simp only [stepOp, endBlock]
+    split
+    · rename_i s3 hp
+      have := payFees_nonce _ _ s3 hp
+      simp only [this]
+      have := (authorityEndBlock_fields s).2.2.2.2
+      simp only [this]; exact Nat.le_refl _
+    · exact Nat.le_refl _
+
+/-- Number of times the signed transaction `tx` takes effect along a mixed history. -/
+def successesOp (tx : Tx) : State → List Op → Nat
+  | _, [] => 0
+  | s, op :: rest =>
+    (match op with
+     | .tx t => if t = tx ∧ (execTx s t).toBool then 1 else 0
+     | _ => 0) + successesOp tx (stepOp s op) rest
+
+theorem successesOp_zero_of_nonce_gt (tx : Tx) (ops : List Op) (s : State)
+    (h : getN s.nonce tx.signer > tx.nonce) : successesOp tx s ops = 0 := by
+  induction ops generalizing s with
+  | nil => rfl
+  | cons op rest ih =>
+    simp only [successesOp]
+    have hmono := stepOp_nonce_mono s op tx.signer
+    rw [ih (stepOp s op) (by omega)]
+    cases op with
+    | tx t =>
+      simp only
+      by_cases ht : t = tx
+      · subst ht
+        cases he : execTx s t with
+        | error e => simp [Except.toBool]
+        | ok s' =>
+          have := (execTx_nonce_gate s s' t he).1
+          omega
+      · simp [ht]
+    | recv p => rfl
+    | refund p => rfl
+    | endBlock => rfl
+
+/-- **C03 (at most once), every mixed history**: along any sequence of transactions of any
+    signers (taking effect or failing), ICS20 packets and block ends, from any state, a given
+    signed transaction takes effect at most once. -/
+theorem no_replay_history (tx : Tx) (ops : List Op) (s : State) : successesOp tx s ops ≤ 1 := by
+  induction ops generalizing s with
+  | nil => simp [successesOp]
+  | cons op rest ih =>
+    simp only [successesOp]
+    cases op with
+    | tx t =>
+      simp only
+      by_cases ht : t = tx ∧ (execTx s t).toBool = true
+      · obtain ⟨h1, h2⟩ := ht
+        subst h1
+        cases he : execTx s t with
+        | error e => simp [he, Except.toBool] at h2
+        | ok s' =>
+          have hg := execTx_nonce_gate s s' t he
+          have : stepOp s (.tx t) = s' := by simp [stepOp, stepTx, he]
+          rw [this, successesOp_zero_of_nonce_gt t rest s' (by omega)]
+          simp [Except.toBool]
+      · have := ih (stepOp s (.tx t))
+        simp only [ht, if_false]
+        omega
+    | recv p => have := ih (stepOp s (.recv p)); simpa using this
+    | refund p => have := ih (stepOp s (.refund p)); simpa using this
+    | endBlock => have := ih (stepOp s .endBlock); simpa using this
+
 end Astria.Ledger
